@@ -86,7 +86,7 @@ def _fresh_policy_answer(cfg, arms, rows_sel, q, seed, is_predict):
     imp.rng = create_rng(int(seed))
     dec = np.asarray([r[0] for r in rows_sel])
     rew = np.asarray([r[1] for r in rows_sel])
-    X = np.asarray([r[2] for r in rows_sel])
+    X = np.asarray([r[2] for r in rows_sel]).reshape(len(rows_sel), len(q))
     imp.fit(dec, rew, X)
     row = np.asarray([q])
     return imp.predict(row) if is_predict else imp.predict_expectations(row)
